@@ -8,6 +8,7 @@ package c12
 import (
 	"bytes"
 	"fmt"
+	"github.com/jcmturner/gokrb5/v8/keytab"
 	"strings"
 	"time"
 
@@ -247,6 +248,7 @@ func Run(c *engine.Ctx) {
 	retainedReplies(c, req)
 	sizesAndRealmNames(c, req)
 	udpSizesAndErrorSequences(c, req)
+	configurationsAndReferrals(c)
 }
 
 func safeRun(f func()) (p string) {
@@ -466,6 +468,125 @@ func loginLevel(c *engine.Ctx) {
 			}
 		}
 	}
+}
+
+// configurationsAndReferrals: (a) KDCs configured as IPv4 / IPv6 literals with a port; (b) the client's realm is not
+// the default realm, whose own [realms] block names no KDC; (c) two KDCs that answer every AS-REQ with
+// KDC_ERR_WRONG_REALM pointing at each other: the login fails after a bounded number of requests.
+func configurationsAndReferrals(c *engine.Ctx) {
+	if client.VerifMinimal {
+		return
+	}
+	var n int64
+	// (a)
+	for _, addr := range []string{"[2001:db8::88]:88", "[::1]:750", "10.1.2.3:88", "10.1.2.3"} {
+		for _, limit := range []int{1, 1465} {
+			vnet.Reset()
+			vclock.Set(cworld.T0)
+			vrand.Script(nil)
+			o := cworld.DefaultOpts()
+			o.UDPLimit = limit
+			w := cworld.New(o)
+			text := strings.Replace(w.Conf, "kdc = kdc1.test.gokrb5:88", "kdc = "+addr, 1)
+			if text == w.Conf {
+				engine.Fatal("C12: the world's configuration has no 'kdc = kdc1.test.gokrb5:88' line to replace")
+			}
+			cfg, err := config.NewFromString(text)
+			if err != nil {
+				engine.FailValid("config.NewFromString(KDC given as "+addr+")", err)
+			}
+			want := strings.TrimSuffix(strings.TrimSpace(strings.TrimSuffix(addr, "*")), " ")
+			if !strings.Contains(strings.TrimPrefix(want, "["), "]:") && !strings.Contains(want, ".3:") && !strings.Contains(want, "gokrb5:") {
+				want += ":88"
+			}
+			for _, nw := range []string{"udp", "tcp"} {
+				vnet.Register(nw, want, &vnet.Endpoint{Behaviour: vnet.Answer, Handler: func(network, a string, req []byte) []byte { return w.KDC.Handle(network, req) }})
+			}
+			kt := keytab.New()
+			if err := kt.Unmarshal(w.Keytab); err != nil {
+				engine.FailValid("keytab.Unmarshal(client keytab)", err)
+			}
+			cl := client.NewWithKeytab(cworld.User, cworld.Realm, kt, cfg, client.DisablePAFXFAST(true))
+			var lerr error
+			pn := safeRun(func() { lerr = cl.Login() })
+			n++
+			rec := map[string]interface{}{"kdc_as_configured": addr, "endpoint_listening_at": want, "udp_preference_limit": limit}
+			switch {
+			case pn != "":
+				c.Violate("config", "panic:kdc-address-form", map[string]interface{}{"panic": pn}, rec)
+			case lerr != nil:
+				c.Violate("config", "login-fails-although-a-kdc-answers:kdc-address-form", map[string]interface{}{"err": lerr.Error()}, rec)
+			default:
+				c.Distinct("addrform/" + addr)
+			}
+			func() { defer func() { recover() }(); cl.Destroy() }()
+		}
+	}
+	// (b)
+	for _, blk := range []string{" DEFAULT.ONLY = {\n  admin_server = a.default.only\n }\n", ""} {
+		vnet.Reset()
+		vclock.Set(cworld.T0)
+		vrand.Script(nil)
+		w := cworld.New(cworld.DefaultOpts())
+		text := strings.Replace(w.Conf, "default_realm = "+cworld.Realm, "default_realm = DEFAULT.ONLY", 1)
+		text = strings.Replace(text, "[realms]\n", "[realms]\n"+blk, 1)
+		cfg, err := config.NewFromString(text)
+		if err != nil {
+			engine.FailValid("config.NewFromString(client realm is not the default realm)", err)
+		}
+		kt := keytab.New()
+		if err := kt.Unmarshal(w.Keytab); err != nil {
+			engine.FailValid("keytab.Unmarshal(client keytab)", err)
+		}
+		cl := client.NewWithKeytab(cworld.User, cworld.Realm, kt, cfg, client.DisablePAFXFAST(true))
+		var lerr error
+		pn := safeRun(func() { lerr = cl.Login() })
+		n++
+		rec := map[string]interface{}{"default_realm": "DEFAULT.ONLY", "default_realm_block": blk, "client_realm": cworld.Realm}
+		switch {
+		case pn != "":
+			c.Violate("config", "panic:client-realm-not-default", map[string]interface{}{"panic": pn}, rec)
+		case lerr != nil || len(w.KDC.Requests) == 0:
+			c.Violate("config", "login-fails-although-a-kdc-answers:client-realm-is-not-the-default-realm", map[string]interface{}{"err": fmt.Sprint(lerr), "requests_seen_by_the_kdc": len(w.KDC.Requests)}, rec)
+		default:
+			c.Distinct("nondefault/" + fmt.Sprint(blk != ""))
+		}
+		func() { defer func() { recover() }(); cl.Destroy() }()
+	}
+	// (c)
+	{
+		vnet.Reset()
+		vclock.Set(cworld.T0)
+		vrand.Script(nil)
+		w := cworld.New(cworld.DefaultOpts())
+		wrong := int32(68)
+		asOnly := func(req *krbmsg.KDCReq) *int32 {
+			if req.App == krbmsg.AppASReq {
+				return &wrong
+			}
+			return nil
+		}
+		w.KDC.ErrorReply, w.KDC.ErrorCRealm = asOnly, cworld.OtherRealm
+		w.Other.ErrorReply, w.Other.ErrorCRealm = asOnly, cworld.Realm
+		vnet.MaxDials = 400
+		var lerr error
+		pn := safeRun(func() { lerr = w.Client.Login() })
+		vnet.MaxDials = 0
+		n++
+		nreq := len(w.KDC.Requests) + len(w.Other.Requests)
+		rec := map[string]interface{}{"kdcs": "TEST and OTHER answer every AS-REQ with KDC_ERR_WRONG_REALM naming each other"}
+		switch {
+		case strings.Contains(pn, "connections opened") || nreq > 24:
+			c.Violate("referral", "unbounded-attempts:wrong-realm-referral-cycle", map[string]interface{}{"requests": nreq, "panic": pn}, rec)
+		case pn != "":
+			c.Violate("referral", "panic:wrong-realm-referral-cycle", map[string]interface{}{"panic": pn}, rec)
+		case lerr == nil:
+			c.Violate("referral", "login-succeeds-although-nothing-answers:wrong-realm-referral-cycle", nil, rec)
+		default:
+			c.Distinct(fmt.Sprintf("wrong-realm-cycle/%d", nreq))
+		}
+	}
+	c.Add("evaluations", n)
 }
 
 func cloneConfig(c *config.Config) *config.Config {
